@@ -698,8 +698,23 @@ def sec_other2q(ctx, rng, case):
                 ("FSim", cirq.FSimGate(0.3, 0.2).on(q0, q1), None), ("SQRT_SWAP", (cirq.SWAP ** 0.5).on(q0, q1), None),
                 ("PhasedISwap(other)", cirq.PhasedISwapPowGate(phase_exponent=0.1, exponent=0.5).on(q0, q1), None),
             ]
+            # whole-number powers and sign flips of the table's gates: whether the table knows them is its own business
+            # ("maybe"), but whatever it returns has to rebuild the operation
+            t2 = float(rng.choice([-1.0, 1.0, 3.0, -3.0, 2.0, 0.0, -2.0, t]))
+            table += [
+                ("maybe:SwapPow", cirq.SwapPowGate(exponent=t2).on(q0, q1), G.swappow_doc(t2)),
+                ("maybe:ISwapPow", cirq.ISwapPowGate(exponent=t2).on(q0, q1), G.iswappow_doc(t2)),
+                ("maybe:CZPow", cirq.CZPowGate(exponent=t2).on(q0, q1), G.czpow_doc(t2)),
+                ("maybe:PhasedISwap", cirq.PhasedISwapPowGate(phase_exponent=p, exponent=t2).on(q0, q1), G.phased_iswap(p, t2)),
+                ("maybe:ISwapPow", cirq.ISwapPowGate(exponent=t2).on(q1, q0), G.iswappow_doc(t2)),
+            ]
             name, op, want = table[(case // 8) % len(table)]
             res = cirq_google.known_2q_op_to_sycamore_operations(op)
+            if name.startswith("maybe:") and res is None:
+                ctx.event("known_2q_op_to_sycamore:not-in-table:" + name)
+                return
+            if name.startswith("maybe:"):
+                t = t2
             if want is None:
                 ctx.check(res is None, "known_2q_op_to_sycamore:none-for-unknown", "C15:known_2q_op_to_sycamore_operations:unknown-op-not-none",
                           "returned %r for %s" % (res, name))
